@@ -142,14 +142,6 @@ func CloneNode(node ast.Node) ast.Node {
 		}
 		return ast.NewForRange(ClonePosition(n.Position), assignment, body, els)
 
-	case *ast.Func:
-		var ident *ast.Identifier
-		if n.Ident != nil {
-			ident = ast.NewIdentifier(ClonePosition(n.Ident.Position), n.Ident.Name)
-		}
-		typ := CloneExpression(n.Type).(*ast.FuncType)
-		return ast.NewFunc(ClonePosition(n.Position), ident, typ, CloneNode(n.Body).(*ast.Block), n.DistFree, n.Format)
-
 	case *ast.Go:
 		return ast.NewGo(ClonePosition(n.Position), CloneExpression(n.Call))
 
@@ -395,7 +387,7 @@ func CloneExpression(expr ast.Expression) ast.Expression {
 			keyValues[i].Key = CloneExpression(kv.Key)
 			keyValues[i].Value = CloneExpression(kv.Value)
 		}
-		return ast.NewCompositeLiteral(ClonePosition(e.Pos()), CloneExpression(e.Type), keyValues)
+		expr2 = ast.NewCompositeLiteral(ClonePosition(e.Pos()), CloneExpression(e.Type), keyValues)
 
 	case *ast.Default:
 		expr2 = ast.NewDefault(ClonePosition(e.Position), CloneExpression(e.Expr1), CloneExpression(e.Expr2))
@@ -411,7 +403,7 @@ func CloneExpression(expr ast.Expression) ast.Expression {
 		if e.Body != nil {
 			body = CloneNode(e.Body).(*ast.Block)
 		}
-		expr2 = ast.NewFunc(ClonePosition(e.Position), ident, typ, body, false, e.Format)
+		expr2 = ast.NewFunc(ClonePosition(e.Position), ident, typ, body, e.DistFree, e.Format)
 
 	case *ast.FuncType:
 		var parameters []*ast.Parameter
